@@ -39,7 +39,10 @@ impl Opts {
     }
 
     pub fn mockable(&self) -> Mockable {
-        if (self.unimock.is_some() && self.mock_api.is_some()) || self.mockall.is_some() {
+        let unimock = self.unimock.map(|opt| opt.0).unwrap_or(false);
+        let mockall = self.mockall.map(|opt| opt.0).unwrap_or(false);
+
+        if (unimock && self.mock_api.is_some()) || mockall {
             Mockable::Yes
         } else {
             Mockable::No
